@@ -265,7 +265,7 @@ class AccountingRequest(Accounting):
     framed_protocol: int
     framed_route: list[str]
     framed_routing: int
-    login_ip_host: list[str]
+    login_ip_host: list[bytes]
     login_ipv6_host: list[bytes]
     login_lat_group: bytes
     login_lat_node: bytes
